@@ -160,6 +160,22 @@ def gen_program(seed, nloggers=3, nstmts=14):
         st["items"] = [{"kind": "int", "v": 255, "id": ids.item}, {"kind": "dbl", "v": 2.5, "id": ids.item + 1}]
         ids.item += 2
         lg["stmts"].append(st)
+        # (e) the tag is taken when the statement starts: a named stream whose tag argument is a
+        # variable that changes before the stream object dies
+        st = _stmt(rng, ids, rng.randrange(3, 6), "named", 2, simple=True, tagged=True)
+        st["tagvar"] = True
+        lg["stmts"].append(st)
+        # (f) an inserted object that puts the buffer into a failed state: later callables of an
+        # emitted record are still called exactly once (their text is discarded by the stream)
+        for form in ("expr", "named"):
+            st = _stmt(rng, ids, 5, form, 1, simple=True)
+            st["items"].append({"kind": "failobj", "v": ids.item, "id": ids.item})
+            st["items"].append({"kind": "lazy", "v": ids.item + 1, "id": ids.item + 1})
+            st["items"].append({"kind": "obj", "v": ids.item + 2, "id": ids.item + 2})
+            st["items"].append({"kind": "lazyp", "v": ids.item + 3, "id": ids.item + 3})
+            ids.item += 4
+            st["cuts"] = [2, 4] if form == "named" else []
+            lg["stmts"].append(st)
     return {"seed": seed, "loggers": loggers}
 
 
@@ -189,6 +205,8 @@ def item_text(it):
         return "G%d" % it["id"]
     if k == "hexint":
         return "%x" % v
+    if k == "failobj":
+        return "F%d" % it["id"]
     return "O%d" % it["id"]
 
 
@@ -214,6 +232,8 @@ def item_cpp(it):
         return '[] { ev("LAZY %d"); %s return std::string("G%d"); }' % (it["id"], it["_code"], it["id"])
     if k == "hexint":
         return "std::hex << %d" % v
+    if k == "failobj":
+        return "Failing{%d}" % it["id"]
     return "Counting{%d}" % it["id"]
 
 
@@ -240,7 +260,13 @@ def stmt_code(k, st, ind, var):
         L.append(ind + "L%d::%s(%s)%s;" % (k, sev, tag, "".join(" << " + i for i in items)))
     else:
         L.append(ind + "{")
-        L.append(ind + "    auto %s = L%d::%s(%s);" % (var, k, sev, tag))
+        if st.get("tagvar"):
+            L.append(ind + "    std::string tg%d = %s;" % (st["id"], tag))
+            L.append(ind + "    auto %s = L%d::%s(tg%d);" % (var, k, sev, st["id"]))
+            L.append(ind + "    tg%d = \"CHANGED-AFTER-THE-STATEMENT-STARTED\";" % st["id"])
+            L.append(ind + "    tg%d[0] = 'c';" % st["id"])
+        else:
+            L.append(ind + "    auto %s = L%d::%s(%s);" % (var, k, sev, tag))
         parts = _parts(st, items)
         between = {n["after_part"]: n["stmt"] for n in st["nested"] if n["how"] == "between"}
         alive = {n["around_part"]: n["stmt"] for n in st["nested"] if n["how"] == "alive"}
@@ -289,6 +315,9 @@ def source(prog):
     A("struct Counting { int id; };")
     A("static std::ostream& operator<<(std::ostream& s, const Counting& c) { ev(\"INS \" + std::to_string(c.id)); "
       "return s << 'O' << c.id; }")
+    A("struct Failing { int id; };")
+    A("static std::ostream& operator<<(std::ostream& s, const Failing& f) { ev(\"INS \" + std::to_string(f.id)); "
+      "s << 'F' << f.id; s.setstate(std::ios::failbit); return s; }")
     A("using R = nitro::log::record<nitro::log::tag_attribute, nitro::log::message_attribute, "
       "nitro::log::severity_attribute, nitro::log::timestamp_attribute>;")
     for lg in prog["loggers"]:
@@ -350,12 +379,16 @@ def expected_events(lg, st, minsev, thr, parent=None, how=None):
     sev = st["sev"]
     lazy = []
     msg = ""
+    failed = False
     for it in st["items"]:
         if it["kind"] in ("lazy", "lazyp", "fn", "lazylog"):
             lazy.append("LAZY %d" % it["id"])
-        elif it["kind"] == "obj":
+        elif it["kind"] in ("obj", "failobj"):
             lazy.append("INS %d" % it["id"])
-        msg += item_text(it)
+        if not failed:
+            msg += item_text(it)
+        if it["kind"] == "failobj":
+            failed = True     # the buffer is in a failed state: later insertions leave no text
     tag = st["tag"] or ""
     hx = lambda s: "x" + s.encode("latin-1").hex()
     rec = "<%d|%d|%s|%s>" % (lg["k"], sev, tag, msg)
